@@ -317,8 +317,9 @@ def empty_state(typ):
 
 
 def cmp_fields(typ, with_lists=True):
-    if typ == 'MISC':
-        return ('value', )
+    if typ == 'MISC':    # last observation wins; accumulated lists concatenate
+        return ('value', 'value_list', 'total_list') if with_lists else (
+            'value', )
     f = FIELDS if with_lists else FIELDS[:5]
     return f + DERIVED
 
@@ -383,6 +384,29 @@ def do_update(r, o):
 def scen_law(mk, cfg, rep):
     Rm = repo_module(RM)
     typ, acc, law = cfg['type'], cfg['acc'], cfg['law']
+    if law == 'refuse':
+        # an accumulating receiver refuses a non-accumulating operand (its
+        # lists could not be extended) and stays as it was
+        a = arb_result(mk, Rm, 'a', typ, True, nlist=2)
+        b = arb_result(mk, Rm, 'b', typ, False)
+        sa, sb = state(a), state(b)
+        try:
+            a.merge(b)
+            raised = None
+        except AssertionError as e:
+            raised = e
+        rep('refuse|raises:AssertionError', raised is not None)
+        if raised is not None:
+            rep.compare('refuse|receiver', state(a), sa, FIELDS)
+            rep.compare('refuse|operand[b]', state(b), sb, FIELDS)
+        # the other direction is accepted (receiver does not accumulate)
+        c = arb_result(mk, Rm, 'c', typ, False)
+        d = arb_result(mk, Rm, 'd', typ, True, nlist=1)
+        sc, sd = state(c), state(d)
+        c.merge(d)
+        rep.compare('refuse|accepted', derive(state(c)),
+                    derive(oplus(typ, False, sc, sd)), cmp_fields(typ))
+        return
     if law == 'upd':
         a = arb_result(mk, Rm, 'a', typ, acc, nlist=2)
         a2 = clone(Rm, a, typ, acc)
@@ -475,7 +499,7 @@ def seq_fields(typ):
         return ('value', 'total', 'num_updates', 'mean', 'var', 'result',
                 'value_list', 'total_list')
     if typ == 'MISC':
-        return ('value', 'result')
+        return ('value', 'result', 'value_list', 'total_list')
     # CHOICE get_result() is a float division of integer counters: compared
     # between groupings only, not with the exact oracle
     return ('value', 'total', 'num_updates', 'total_list')
@@ -491,8 +515,8 @@ def scen_partition(mk, cfg, rep):
     oref = observe(ref, True)
     rep.compare('seq|ref=def', oref, seq_oracle(mk, typ, acc, seq),
                 seq_fields(typ))
-    fields = ('value', 'result') if typ == 'MISC' else \
-        FIELDS + DERIVED + ('result', )
+    fields = ('value', 'result', 'value_list', 'total_list') \
+        if typ == 'MISC' else FIELDS + DERIVED + ('result', )
     if typ == 'CHOICE' and acc:
         # CHOICE value_list: the order of the accumulated choices
         rep('seq|ref=def:value_list', same(oref['value_list'],
@@ -747,7 +771,7 @@ def upd_def(typ, acc, s, o):
 
 
 def claimed(typ):
-    return ('value', ) if typ == 'MISC' else FIELDS
+    return ('value', 'value_list', 'total_list') if typ == 'MISC' else FIELDS
 
 
 def read_fields(typ):
@@ -1404,7 +1428,8 @@ class Laws(_Base):
 
     def configs(self, tier):
         return [dict(type=t, acc=a, law=l) for t in TYPES
-                for a in (False, True) for l in ('upd', 'assoc')]
+                for a in (False, True) for l in ('upd', 'assoc')] + [
+                    dict(type=t, acc=True, law='refuse') for t in TYPES]
 
 
 class Partitions(_Base):
